@@ -152,6 +152,43 @@ def main(tier):
                              op=b["got"].get("whence", "read")), dict(engine="layers-trace", profile="prod", trace=t, line=b["line"], event=b["got"]))
     ev["prod_events"] = nev
     ev["prod_runs"] = len(jobs)
+    # COUNTS of units rather than sizes: many chunks, many compressed blocks (scaled constants make them cheap): an
+    # index table with a stride, a counter of 8 or 16 bits, a per-block cost... change behaviour at a count, not at a size
+    CHs, BLs = 20, 48
+    kc = [17, 255, 256, 257, 300] + ([65535, 65536, 65537] if tier == "thorough" else [])
+    kb = [17, 18, 33, 40] + ([255, 256, 257, 1030] if tier == "thorough" else [])
+    mjobs = []
+    for i, k in enumerate(kc):
+        for d in (0, 3):
+            mjobs.append(dict(stack="enc", L=k * CHs + d, seed=seed() + 300 + i, offset=(i % 2) * 9, nops=80))
+    for i, k in enumerate(kb):
+        for d in (0, 5):
+            mjobs.append(dict(stack="comp", L=k * BLs + d, seed=seed() + 340 + i, offset=0, nops=80, entropy="high" if i % 2 else "low"))
+            mjobs.append(dict(stack="comp+enc", L=k * BLs + d, seed=seed() + 380 + i, offset=11, nops=80, entropy="low" if i % 2 else "high"))
+    mshards = [mjobs[i::6] for i in range(6)]
+    build("s20")
+
+    def trm(i):
+        p = os.path.join(wd, f"mjobs{i}.jsonl")
+        t = os.path.join(wd, f"mtrace{i}.ndjson")
+        write_jsonl(p, mshards[i])
+        mbt("s20", "layers-trace", p, t, timeout=3000)
+        acc, tinfo, tres = validate_trace("TraceStream", "TraceStream.cfg", t, f"c11-tm{i}", timeout=1500)
+        return t, acc, tinfo, tres
+    with ThreadPoolExecutor(max_workers=6) as ex:
+        mtrs = list(ex.map(trm, range(6)))
+    mev = 0
+    for t, acc, tinfo, tres in mtrs:
+        if not tinfo or tinfo.get("matched") != tinfo.get("len"):
+            raise ToolError(f"TraceStream did not consume {t}: {tres.error_text[:500]}")
+        mev += tinfo["len"]
+        ev["states"] += tres.distinct
+        for b in tinfo.get("bad", []):
+            v.violation(dict(check="stream-trace", module="TraceStream", stack=b["stack"], kind=b["what"], L=b["L"], te=False,
+                             op=b["got"].get("whence", "read")), dict(engine="layers-trace", profile="s20", trace=t, line=b["line"], event=b["got"]))
+    ev["many_units_runs"] = len(mjobs)
+    ev["many_units_events"] = mev
+    log(f"[C11] many units (up to {max(kc)} chunks / {max(kb)} compressed blocks, scaled constants): {len(mjobs)} recorded runs ({mev} events) validated against ByteStream by TLC")
     log(f"[C11] production constants: {len(jobs)} recorded runs ({nev} events) validated against ByteStream by TLC")
     # Apalache (symbolic): the position maps and the end-of-stream formula at production constants, for every position < 2^40
     import subprocess
@@ -172,7 +209,7 @@ def main(tier):
         ev["apalache"] = dict(proved=False, note=f"not concluded: {e}")
     shutil.rmtree(ad, ignore_errors=True)
     cov = dict(states=ev["states"], transitions=ev["transitions"], apalache_lemma=ev.get("apalache"),
-               traces_validated_against_impl=ev["runs"] + ev.get("prod_runs", 0), production_constant_events=ev.get("prod_events", 0), samples=ev["samples"][:3] or ["none"],
+               traces_validated_against_impl=ev["runs"] + ev.get("prod_runs", 0) + ev.get("many_units_runs", 0), many_units_events=ev.get("many_units_events", 0), production_constant_events=ev.get("prod_events", 0), samples=ev["samples"][:3] or ["none"],
                edges_exported=ev["edges"], steps_replayed=ev["steps"], hidden_state_steps_compared=ev["hidden"],
                short_reads_refined=ev.get("short_reads_refined", 0), drift=ev["drifts"], drift_samples=ev["drift_samples"][:3], tlc_runs=ev["tlc"], constants=ev["constants"],
                exhaustive=(ev["drifts"] == 0 and not v.violations),
